@@ -10,6 +10,7 @@ From Storage Require Import Base.Bytes Store.Model Store.UniqueProofs Store.WfSc
 From Storage Require Import Store.Paging Store.PagingProofs Store.PagingChild.
 From Storage Require Import Store.XOps Store.ChildDeleteWhere.
 From Storage Require Import Store.Lookups Store.LookupsProofs Store.NoTrace.
+From Storage Require Import Store.PagingCursor Store.PagingCursorProofs Store.ChildLinks.
 Import ListNotations.
 
 (* an entity created through the child store exists in both stores, and the parent's fields hold the values
@@ -281,3 +282,48 @@ Theorem delete_removes_every_part : forall sch fuel (txs : list tx) oc fuel' evs
   (forall s f t b nl ti, root_of sch s = r -> In (CFkIndex f t b nl) (cons_of sch s) -> ~ In x (eset st' (root_of sch t) ti b)).
 Proof. exact delete_removes_every_part_closed. Qed.
 Print Assumptions delete_removes_every_part.
+
+(* ---- queries over a CALLER-SUPPLIED cursor (Store.QueryWithCursorC -> ScanCursor; Store/PagingCursor.v): the transcribed
+   loops of the id-order scanner and of the sorting scanner, run over ANY list of candidate ids the cursor yields (the cursor of
+   a set index of the parent, a related-entities cursor, a tree set of ids - parent-level data, with and without child data),
+   compute the specification [cursor_query_page]: the candidates the store shows that satisfy the filter, in cursor order or
+   sorted, then skip / limit; count = their number *)
+Theorem cursor_scans_meet_spec : forall sch st s flt f asc (skip : nat) (limit : option nat) (cands : list id),
+  sorting_scan_over sch st s flt f asc skip limit cands = cursor_query_page sch st s flt (Some (f, asc)) skip limit cands /\
+  unsorted_scan_over sch st s flt skip limit cands = cursor_query_page sch st s flt None skip limit cands.
+Proof. exact cursor_scans_meet_spec_closed. Qed.
+Print Assumptions cursor_scans_meet_spec.
+
+(* ... and what it shows per store kind, for EVERY candidate list: through a plain child store every id of the page is a
+   candidate WITH child data that satisfies the filter, the count is the number of such candidates (never the number of
+   candidates) and the page holds min(limit, count - skip) rows; through an extended child store page and count are the
+   parent's over the same cursor (all candidates take part); through the parent all candidates take part *)
+Theorem child_cursor_query_only_children : forall sch r c st flt srt (skip : nat) (limit : option nat) (cands : list id),
+  wf_child_b sch r c = true ->
+  (is_ext sch c = false ->
+     (forall i, In i (fst (cursor_query_page sch st c flt srt skip limit cands)) ->
+                In i cands /\ present sch st c i = true /\ q_match sch st c flt i = true) /\
+     snd (cursor_query_page sch st c flt srt skip limit cands)
+       = length (filter (fun i => present sch st c i && q_match sch st c flt i) cands) /\
+     length (fst (cursor_query_page sch st c flt srt skip limit cands))
+       = match limit with
+         | None => Nat.sub (snd (cursor_query_page sch st c flt srt skip limit cands)) skip
+         | Some n => Nat.min n (Nat.sub (snd (cursor_query_page sch st c flt srt skip limit cands)) skip)
+         end) /\
+  (is_ext sch c = true -> flt_not_declared sch c flt -> srt_not_declared sch c srt ->
+     cursor_query_page sch st c flt srt skip limit cands = cursor_query_page sch st r flt srt skip limit cands) /\
+  snd (cursor_query_page sch st r flt srt skip limit cands) = length (filter (q_match sch st r flt) cands).
+Proof. exact child_cursor_query_only_children_closed. Qed.
+Print Assumptions child_cursor_query_only_children.
+
+(* ---- link collections are facts of the PARENT part: after a successful DeleteById through ANY store s0 of the family of r
+   (the parent, the child store holding the entity's data, another child store), in every reachable state of a schema that
+   passes wf_notrace_b: the entity and its own link sets are gone, and no link set of any entity of any store whose elements are
+   ids of the family - the other side of every link collection declared on the parent store included - still lists the id *)
+Theorem delete_removes_link_mentions : forall sch fuel (txs : list tx) oc fuel' evs r c s0 x st' evs',
+  wf_notrace_b sch = true -> wf_child_b sch r c = true -> root_of sch s0 = r ->
+  delete_by_id sch oc fuel' (run_txs sch fuel st_empty txs, evs) s0 x = Ok (st', evs') ->
+  (get_ent st' r x = None /\ forall lf, get_set sch st' r x lf = [] /\ get_set sch st' c x lf = []) /\
+  (forall s lf os of_ i, In (lf, os, of_) (links_of sch s) -> root_of sch os = r -> ~ In x (eset st' (root_of sch s) i lf)).
+Proof. exact delete_removes_link_mentions_closed. Qed.
+Print Assumptions delete_removes_link_mentions.
